@@ -29,6 +29,6 @@ if [ "$WHAT" = mutants ] || [ "$WHAT" = all ]; then
   for p in mutants/*.patch; do id=$(basename $p | cut -c1-3 | tr a-z A-Z); run $p $id; done
 fi
 if [ "$WHAT" = seeded ] || [ "$WHAT" = all ]; then
-  for d in seeded/*/; do id=$(basename $d | cut -d- -f1); run $d/patch.diff $id; done
+  for d in seeded/*/; do id=$(basename $d | cut -c1-3); run $d/patch.diff $id; done
 fi
 exit $fail
